@@ -38,8 +38,10 @@ class GlobSplitInit(Contract):
         from wcmatch import glob
 
         def build(m):
-            return glob._GlobSplit('x', m.eval(self.F, model_completion=True).as_long())
+            with FL.spec_callees():
+                return glob._GlobSplit('x', m.eval(self.F, model_completion=True).as_long())
         host = [z3.Not(FL.PLAT_WIN), FL.CASE_FS, z3.Not(FL.OS_NT), z3.Not(z3.Bool('pattern_is_negative'))]       # Linux host, the pattern 'x' is not negative
+        # fields derived from callees that are replaced by their SPEC here are not compared (a callee breaking its own contract is that contract's business)
         return init_crosscheck(self, eng, paths, inp, build, extra=host, vary=[self.F])
 
     @property
@@ -155,7 +157,8 @@ class WcParseInit(Contract):
 
         def build(m):
             fl = m.eval(self.F, model_completion=True).as_long()
-            return _wcparse.WcParse(b'x' if z3.is_true(m.eval(z3.Bool('pattern_is_bytes'), model_completion=True)) else 'x', fl)
+            with FL.spec_callees():
+                return _wcparse.WcParse(b'x' if z3.is_true(m.eval(z3.Bool('pattern_is_bytes'), model_completion=True)) else 'x', fl)
         host = [z3.Not(FL.PLAT_WIN), FL.CASE_FS, z3.Not(FL.OS_NT)]          # the interpreter runs on Linux: compare under that platform
         return init_crosscheck(self, eng, paths, inp, build, extra=host, vary=[self.F])
 
